@@ -150,7 +150,7 @@ impl Property for C03Prop {
             complex_numbers: true,
         };
         let e = gx::expr(src, &cfg);
-        out.set_key(&e);
+        out.key = gx::structural_hash(&e);
         let interesting = gx::any_node(&e, &|n| match n {
             Expression::Number(c) => c.re < 0.0 || c.im != 0.0,
             Expression::Prefix(_) | Expression::FunctionCall(_) => true,
